@@ -124,6 +124,7 @@ func tlcCfg(c *core.Ctx) string {
 type totals struct {
 	states, transitions                  int64
 	programs, runs, runLines, routeDiff  int64
+	routeDiffNotJudged                   int64
 	synCases, synRoutes                  int64
 	und, bad, dev                        int64
 	endErr, endNormal                    int64
@@ -169,8 +170,8 @@ func Check(c *core.Ctx) (map[string]any, []string, error) {
 	cov := map[string]any{
 		"states": t.states, "transitions": t.transitions, "traces_validated_against_impl": judged,
 		"samples": t.samples, "batches": batches, "routes": Routes, "programs": t.programs, "program_runs": t.runs, "run_cases_judged": t.runLines,
-		"routes_differing_judged_individually": t.routeDiff,
-		"syntax_cases":                         t.synCases, "syntax_route_checks": t.synRoutes,
+		"routes_differing_from_named": t.routeDiff, "routes_differing_judged_individually": t.routeDiff - t.routeDiffNotJudged,
+		"syntax_cases": t.synCases, "syntax_route_checks": t.synRoutes,
 		"undecided_left_modelled_fragment": t.und, "undecided_by_tag": t.tagUnd,
 		"rejected": t.bad, "conforming_to_known_deviation": t.dev, "deviation_hits_by_tag": t.devByTag,
 		"conforming":  judged - t.und - t.bad - t.dev,
@@ -260,6 +261,7 @@ func runBatch(c *core.Ctx, rng *rand.Rand, nProg, nSyn int, t *totals, selfTestN
 	}
 	byID := map[int]key{}
 	next := 0
+	copyLines := 0
 	for _, r := range recs {
 		if !r.ok {
 			continue
@@ -270,7 +272,12 @@ func runBatch(c *core.Ctx, rng *rand.Rand, nProg, nSyn int, t *totals, selfTestN
 		for _, route := range Routes[2:] {
 			if o := r.copies[route]; !sameJSON(r.named, o) {
 				// a copied runtime behaves differently from a fresh one: judge it on its own
+				// (at most 400 such lines per batch: enough to report, and TLC stays fast when every copy differs)
 				t.routeDiff++
+				if copyLines++; copyLines > 400 {
+					t.routeDiffNotJudged++
+					continue
+				}
 				next++
 				byID[next] = key{r: r, route: route}
 				enc.Encode(runLine{ID: next, Kind: "run", Prog: r.sc.Prog, Files: r.rd.Files, TLimit: r.sc.TLimit, Named: true, Obs: o})
